@@ -1405,10 +1405,16 @@ def _mp_visit_worker(ready_queue, done_event, callback):
     from queue import Empty
 
     while True:
+        # Test the shutdown flag *before* waiting on the queue. The flag is
+        # only raised once every item has been flushed into the queue, so a
+        # timeout that follows a raised flag means the queue is drained;
+        # testing it after the timeout could drop items queued in between.
+        done = done_event.is_set()
+
         try:
             args = ready_queue.get(True, timeout=1)
         except Empty:
-            if done_event.is_set():
+            if done:
                 break
             continue
 
